@@ -9,18 +9,19 @@ ID = 'C13'
 LEVEL = 'exploration'
 RULE = ('case = rooted directed graph of container nodes (list, dict, tuple-holding-a-list) with ordered out-edges to '
         'nodes or int leaves, edges added after creation (so self-loops, 2- and 3-cycles through mixed kinds and diamonds '
-        'exist), plus a second root; history = print g, print g, print an unrelated value, print the graph from the second '
+        'exist), optionally with comment() on some edges (a commented value is not a node), plus a second root; history = print g, print g, print an unrelated value, print the graph from the second '
         'root, print g, print g with a printer returning a non-document inside every node (the call raises while the '
         'containers are open), print g. Exhaustive: all graphs with <= 2 nodes (out-degree <= 2, leaf targets) and all 3-node graphs with '
         'out-degree <= 2; random: up to 8 nodes, out-degree <= 3. Oracle: a reference DFS with an explicit path stack '
         'builds the expected tree (child on the current path -> marker(type name, id); anything else expanded in full); '
         'the output with "<Recursion on T with id=N>" rewritten to a call must parse to exactly that tree; all prints of '
-        'the same graph are identical. non-trivial = >= 1 back-edge and >= 1 node expanded in full more than once; '
+        'the same graph are identical; the first print of each root runs under a budget of 400000 executed package lines. non-trivial = >= 1 back-edge and >= 1 node expanded in full more than once; '
         'distinct by case hash')
 ASSUMPTIONS = ['id() of live objects is the identity the marker must name', 'RecursionError on these small graphs counts as non-termination']
 BUDGET = {'quick': {'random': 6000, 'shards': 16}, 'thorough': {'random': 300000, 'shards': 16}}
 
 KINDS = ['list', 'dict', 'tuple']
+STEP_CAP = 400000
 MARK = re.compile(r'<Recursion on (\w+) with id=(\d+)>')
 
 
@@ -41,9 +42,13 @@ def build_graph(case):
             inner = []
             objs.append((inner,))
             sinks.append(inner)
+    commented = set(tuple(e) for e in case.get('commented', ()))
     for src, outs in enumerate(case['edges']):
         for j, dst in enumerate(outs):
             child = objs[dst] if dst >= 0 else -dst
+            if (src, j) in commented:
+                from prettyprinter import comment
+                child = comment(child, 'edge %d.%d with a comment long enough to be put above the value' % (src, j))
             s = sinks[src]
             if isinstance(s, dict):
                 s['k%d' % j] = child
@@ -54,6 +59,8 @@ def build_graph(case):
 
 def expected(obj, path, stats):
     """reference DFS -> nested tuple structure"""
+    while type(obj).__name__ in ('_CommentedValue', '_TrailingCommentedValue'):
+        obj = obj.value          # comment wrappers are not nodes
     if isinstance(obj, int):
         return ('int', obj)
     if id(obj) in path:
@@ -118,6 +125,11 @@ def fixed_cases():
     yield {'kinds': ['dict'], 'edges': [[0]], 'root': 0, 'root2': 0}                       # test_recursive
     yield {'kinds': ['list', 'list'], 'edges': [[1, 1], [-3]], 'root': 0, 'root2': 1}       # pure sharing
     yield {'kinds': ['list', 'tuple', 'dict'], 'edges': [[1, 2], [2], [0, 1]], 'root': 0, 'root2': 2}
+    # cycles whose back-reference is a commented dict value (rings of one to three dicts)
+    for w in (20, 79):
+        yield {'kinds': ['dict'], 'edges': [[0]], 'root': 0, 'root2': 0, 'commented': [[0, 0]], 'width': w}
+        yield {'kinds': ['dict', 'dict'], 'edges': [[1], [0, -3]], 'root': 0, 'root2': 1, 'commented': [[1, 0], [0, 0]], 'width': w}
+        yield {'kinds': ['dict', 'list', 'dict'], 'edges': [[1], [2, 2], [0]], 'root': 0, 'root2': 2, 'commented': [[2, 0]], 'width': w}
 
 
 def strategy(tier):
@@ -129,7 +141,12 @@ def strategy(tier):
         kinds = [draw(st.sampled_from(KINDS)) for _ in range(n)]
         target = st.one_of(st.integers(0, n - 1), st.integers(0, n - 1), st.integers(-9, -1))
         edges = [draw(st.lists(target, max_size=3)) for _ in range(n)]
-        return {'kinds': kinds, 'edges': edges, 'root': 0, 'root2': draw(st.integers(0, n - 1))}
+        case = {'kinds': kinds, 'edges': edges, 'root': 0, 'root2': draw(st.integers(0, n - 1))}
+        all_edges = [[s, j] for s, outs in enumerate(edges) for j in range(len(outs))]
+        if all_edges and draw(st.booleans()):
+            case['commented'] = draw(st.lists(st.sampled_from(all_edges), max_size=3, unique_by=tuple))
+            case['width'] = draw(st.sampled_from([20, 79]))
+        return case
     return graphs()
 
 
@@ -141,13 +158,28 @@ def oracle(case):
     stats = {'markers': 0, 'expanded': {}}
     try:
         exp = expected(g, set(), stats)
-        exp2 = expected(g2, set(), {'markers': 0, 'expanded': {}})
+        stats2 = {'markers': 0, 'expanded': {}}
+        exp2 = expected(g2, set(), stats2)
     except RecursionError:
         return core.skip('harness-recursion')
     texts = []
+    from .. import steps
+    # (metering costs ~4 ms per print: applied where runaway expansion is conceivable - two or more
+    # back-references (all graphs of <= 2 or > 3 nodes, a hash-selected quarter of the 3-node enumeration), commented edges)
+    many = stats['markers'] >= 2 or stats2['markers'] >= 2
+    metered = bool(case.get('commented')) or len(objs) <= 2 or (many and (len(objs) > 3 or core.digest(case)[0] < 64))
     try:
-        for value in (g, g, [1, 2], g2, g):
-            p = values.pp(value, width=w)
+        for step_i, value in enumerate((g, g, [1, 2], g2, g)):
+            if step_i in (0, 3) and metered:
+                # termination: the first print of each root runs under a budget of executed package lines
+                # (these graphs need a few thousand); exceeding it is reported instead of hanging
+                nsteps, p, exceeded = steps.measure(lambda: values.pp(value, guard=False, width=w), cap=STEP_CAP)
+                if exceeded:
+                    return core.viol('no-termination-within-budget', 'more than %d package lines for a graph of %d nodes' % (STEP_CAP, len(objs)))
+            else:
+                p, exceeded = steps.guarded(lambda: values.pp(value, guard=False, width=w), cap=STEP_CAP, cpu_seconds=2.0)
+                if exceeded:
+                    return core.viol('no-termination-within-budget', 'more than %d package lines for a graph of %d nodes' % (STEP_CAP, len(objs)))
             if p.exc is not None:
                 return core.viol('pformat-raised', repr(p.exc))
             if p.fallback_warnings():
@@ -173,7 +205,9 @@ def oracle(case):
         else:
             s.append(bad)
     try:
-        aborted = values.pp(g, width=w)
+        aborted, exceeded = steps.guarded(lambda: values.pp(g, guard=False, width=w), cap=STEP_CAP, cpu_seconds=2.0)
+        if exceeded:
+            aborted = None
     except RecursionError:
         aborted = None
     finally:
@@ -185,7 +219,9 @@ def oracle(case):
     if aborted is not None and not isinstance(aborted.exc, ValueError):
         return core.viol('bad-return-not-reported', repr(aborted.exc or aborted.text)[:300])
     try:
-        after = values.pp(g, width=w)
+        after, exceeded = steps.guarded(lambda: values.pp(g, guard=False, width=w), cap=STEP_CAP, cpu_seconds=2.0)
+        if exceeded:
+            return core.viol('no-termination-within-budget', 'reprint after an aborted print')
     except RecursionError:
         return core.viol('recursion-error', 'after an aborted print')
     if after.text != texts[0]:
